@@ -532,6 +532,45 @@ impl JsonbBuilder {
         buf
     }
 
+    /// Like `build`, but refuses documents the format cannot represent instead of
+    /// silently truncating them: nested strings and keys carry a u16 length, entry
+    /// offsets are 24 bits wide and the header count is 28 bits wide.
+    pub fn try_build(&self) -> Result<Vec<u8>> {
+        fn check(value: &JsonbBuilderValue, nested: bool) -> Result<()> {
+            match value {
+                JsonbBuilderValue::String(s) => {
+                    let max = if nested { u16::MAX as usize } else { 0x0FFF_FFFF };
+                    ensure!(s.len() <= max, "jsonb string too long: {} bytes", s.len());
+                }
+                JsonbBuilderValue::Array(elements) => {
+                    for e in elements {
+                        check(e, true)?;
+                    }
+                }
+                JsonbBuilderValue::Object(entries) => {
+                    for (k, v) in entries {
+                        ensure!(
+                            k.len() <= u16::MAX as usize,
+                            "jsonb object key too long: {} bytes",
+                            k.len()
+                        );
+                        check(v, true)?;
+                    }
+                }
+                _ => {}
+            }
+            Ok(())
+        }
+        check(&self.root, false)?;
+        let buf = self.build();
+        ensure!(
+            matches!(self.root, JsonbBuilderValue::String(_)) || buf.len() <= OFFSET_MASK as usize + 1,
+            "jsonb document too large: {} bytes",
+            buf.len()
+        );
+        Ok(buf)
+    }
+
     fn encode_value(&self, value: &JsonbBuilderValue, buf: &mut Vec<u8>) {
         match value {
             JsonbBuilderValue::Null => {
